@@ -235,6 +235,11 @@ func registerMisc(e *Engine) {
 	e.reg("(*sync.WaitGroup).Wait", func(ex *Exec, fn *ssa.Function, args []Value) (Value, *PanicV) {
 		p := args[0].(Ptr)
 		k := "wg:" + ex.ptrKey(p)
+		if ex.coop() {
+			if pan := ex.coRun(); pan != nil {
+				return nil, pan
+			}
+		}
 		// run the queued goroutines (sequentialised, in a nondeterministically chosen order)
 		for {
 			q := ex.goQueue()
